@@ -47,6 +47,8 @@ def install(lib):
 
     # ------------------------------------------------------------------ python builtins
     def b_len(ex, x):
+        if hasattr(x, "pyvc_len"):
+            return x.pyvc_len(ex)
         if isinstance(x, Seq):
             return x.length()
         if isinstance(x, Arr):
